@@ -624,26 +624,53 @@ TYPE_CLASS = [
 
 
 def translate_struct(src):
+    """Fields of `struct Metadata` in declaration order: (name, type class, serde key, omitted when None)."""
     ms = list(re.finditer(r"\bpub\s+struct\s+Metadata\s*\{", src))
     if len(ms) != 1:
         die(f"expected exactly one `pub struct Metadata`, found {len(ms)}")
+    head = src[max(0, ms[0].start() - 400):ms[0].start()]
+    derive = re.findall(r"#\[derive\(([^)]*)\)\]", head)
+    if not derive or "Serialize" not in derive[-1] or "Deserialize" not in derive[-1]:
+        die("struct Metadata no longer derives Serialize/Deserialize")
+    if re.search(r"#\[serde\([^\]]*(rename_all|deny_unknown_fields|transparent|tag)\b", head[head.rfind("#[derive"):]):
+        die("struct Metadata has a container-level serde attribute the model does not know")
     ob = src.index("{", ms[0].start())
     cb = match_brace(src, ob)
-    body = re.sub(r"#\[[^\]]*\]", "", src[ob + 1:cb])
+    body = src[ob + 1:cb]
     fields = []
-    for part in body.split(","):
-        part = part.strip()
+    # split on top-level commas, attributes stay with the field that follows them
+    parts, depth, cur = [], 0, []
+    for ch in body:
+        if ch in "([{<":
+            depth += 1
+        elif ch in ")]}>":
+            depth -= 1
+        if ch == "," and depth == 0:
+            parts.append("".join(cur))
+            cur = []
+        else:
+            cur.append(ch)
+    parts.append("".join(cur))
+    for part in parts:
+        attrs = " ".join(re.findall(r"#\[serde\(([^\]]*)\)\]", part))
+        part = re.sub(r"#\[[^\]]*\]", "", part).strip()
         if not part:
             continue
         m = re.fullmatch(r"(?:pub(?:\([^)]*\))?\s+)?(\w+)\s*:\s*(.+)", part, re.S)
         if not m:
-            # generic types contain commas only for multi-parameter generics, none expected here
             die(f"struct Metadata: field not understood: {norm(part)[:80]}")
         ty = squash(m.group(2))
         cls = next((c for t, c in TYPE_CLASS if squash(t) == ty), None)
         if cls is None:
             die(f"struct Metadata: field `{m.group(1)}` has a type unknown to the model: {ty}")
-        fields.append((m.group(1), cls))
+        rn = re.search(r'rename\s*=\s*"([^"]*)"', attrs)
+        key = rn.group(1) if rn else m.group(1)
+        skip = re.search(r'skip_serializing_if\s*=\s*"([^"]*)"', attrs)
+        if skip and skip.group(1) != "Option::is_none":
+            die(f"struct Metadata: field `{m.group(1)}`: unknown skip_serializing_if {skip.group(1)}")
+        if re.search(r"\b(with|serialize_with|flatten|skip|skip_serializing)\b\s*(=|,|$)", attrs):
+            die(f"struct Metadata: field `{m.group(1)}` has a serde attribute the model does not know: {attrs}")
+        fields.append((m.group(1), cls, key, bool(skip)))
     return fields
 
 
@@ -844,14 +871,19 @@ def main():
     ]
     expected_chunk = [".lit " + lean_nats(list(b"anda_object_store.encrypted.chunk.v1")), ".le64ChunkSize", ".le64ChunkIndex"]
     expected_fields = [
-        ("size", ".u64"), ("e_tag", ".optStr"), ("original_tag", ".optStr"), ("original_version", ".optStr"),
-        ("aes_nonce", ".bytes 12"), ("aes_tags", ".listBytes 16"), ("chunk_size", ".optU64"),
-        ("chunk_aad_version", ".optU8"), ("auth_nonce", ".optBytes 12"), ("auth_tag", ".optBytes 16"),
-        ("generation", ".optStr"), ("committed_at_ms", ".optU64"),
+        ("size", ".u64", "s", False), ("e_tag", ".optStr", "e", False), ("original_tag", ".optStr", "o", False),
+        ("original_version", ".optStr", "v", False), ("aes_nonce", ".bytes 12", "n", False),
+        ("aes_tags", ".listBytes 16", "t", False), ("chunk_size", ".optU64", "c", True),
+        ("chunk_aad_version", ".optU8", "av", True), ("auth_nonce", ".optBytes 12", "an", True),
+        ("auth_tag", ".optBytes 16", "at", True), ("generation", ".optStr", "g", True),
+        ("committed_at_ms", ".optU64", "m", True),
     ]
 
     def fields_term(fs):
-        return "[" + ", ".join(f"({field(n)}, {c})" for n, c in fs) + "]"
+        return "[" + ", ".join(f"({field(f[0])}, {f[1]})" for f in fs) + "]"
+
+    def serde_term(fs):
+        return "[" + ", ".join(f"({field(f[0])}, {lean_nats(list(f[2].encode()))}, {'true' if f[3] else 'false'})" for f in fs) + "]"
 
     out = f"""/-
 GENERATED by bin/translate/c09_enc_aad.py from rs/anda_object_store/src/encryption.rs — do not edit.
@@ -919,6 +951,10 @@ def pushOptU8Shape : OptShape := {shapes['push_opt_u8']}
 /-- `struct Metadata`, in declaration order, with the type class of every field. -/
 def metadataFields : List (Field × FieldType) := {fields_term(fields)}
 
+/-- How serde writes the document: per field (declaration order) the map key and whether the entry is
+omitted when the value is `None` (`skip_serializing_if = "Option::is_none"`). -/
+def serdeFields : List (Field × List Nat × Bool) := {serde_term(fields)}
+
 /-- `verify_metadata`, arm `(None, None)`: presence of any of these without a seal is rejected
 before the legacy fallback (and before the strict-mode test). -/
 def strippedGuardFields : List Field := [{", ".join(field(f) for f in guard)}]
@@ -952,6 +988,8 @@ theorem gen_pushShapes :
     pushOptU8Shape = ⟨[.byte 1, .valByte], [.byte 0]⟩ := by decide
 
 theorem gen_metadataFields : metadataFields = {fields_term(expected_fields)} := by decide
+
+theorem gen_serdeFields : serdeFields = {serde_term(expected_fields)} := by decide
 
 /-- Every field of `Metadata` except the seal itself (`auth_nonce`, `auth_tag`) is pushed into the
 authenticated data — no field is outside the seal. -/
